@@ -1249,7 +1249,7 @@ def h_all(I, st, fr, e, c, a):
         for s1 in I.assume(st.copy(), ("cmp", "ge", t_len(seq.t) - 1)):
             out.append((s1, TRUE if lit else FALSE, None))
         return out
-    return [(st, VBool(("unk", ("all", show_term(seq.t)[:80], fkey_of(a[1])))), None)]
+    return [(st, VBool(("unk", ("all", show_term(seq.t)[:80], fkey_of(a[1]), seq.t))), None)]
 
 
 def h_first(I, st, fr, e, c, a):
@@ -1259,6 +1259,33 @@ def h_first(I, st, fr, e, c, a):
         out.append((s, NONE, None))
     for s in I.assume(st.copy(), ("cmp", "ge", t_len(v.t) - 1)):
         out.append((s, some(seq_elem(I, s, v, Poly.const(0))), None))
+    return out
+
+
+def h_split_first(I, st, fr, e, c, a):
+    """slice.split_first(): None on the empty slice, else (first element, the rest)."""
+    v = deref(I, st, a[0])
+    if not isinstance(v, VSeq):
+        raise NotImplementedError("split_first on " + type(v).__name__)
+    n = t_len(v.t)
+    out = []
+    for s in I.assume(st.copy(), ("cmp", "eq", n)):
+        out.append((s, NONE, None))
+    for s in I.assume(st.copy(), ("cmp", "ge", n - 1)):
+        out.append((s, some(VTup([seq_elem(I, s, v, Poly.const(0)), VSeq(mk_slice(s, v.t, Poly.const(1), n))])), None))
+    return out
+
+
+def h_split_last(I, st, fr, e, c, a):
+    v = deref(I, st, a[0])
+    if not isinstance(v, VSeq):
+        raise NotImplementedError("split_last on " + type(v).__name__)
+    n = t_len(v.t)
+    out = []
+    for s in I.assume(st.copy(), ("cmp", "eq", n)):
+        out.append((s, NONE, None))
+    for s in I.assume(st.copy(), ("cmp", "ge", n - 1)):
+        out.append((s, some(VTup([seq_elem(I, s, v, n - 1), VSeq(mk_slice(s, v.t, Poly.const(0), n - 1))])), None))
     return out
 
 
@@ -1394,6 +1421,8 @@ TABLE = {
     "core::slice::<impl [T]>::iter": h_seq_identity,
     "core::slice::<impl [T]>::iter_mut": h_iter_mut,
     "core::slice::<impl [T]>::first": h_first,
+    "core::slice::<impl [T]>::split_first": h_split_first,
+    "core::slice::<impl [T]>::split_last": h_split_last,
     "std::iter::Iterator::cloned": h_seq_identity,
     "std::iter::Iterator::copied": h_seq_identity,
     "std::slice::<impl [T]>::to_vec": h_seq_identity,
